@@ -10,7 +10,8 @@ dir=$(realpath "$1"); shift
 name=$(basename "$dir")
 work=$(mktemp -d /tmp/seedtest-$name-XXXXXX)
 trap 'git -C /repo worktree remove --force "$work/repo" 2>/dev/null; rm -rf "$work"' EXIT
-git -C /repo worktree add --detach "$work/repo" HEAD -q || exit 2
+base=$(python3 -c "import json;print(json.load(open('$dir/meta.json')).get('base_commit','HEAD'))" 2>/dev/null || echo HEAD)
+git -C /repo worktree add --detach "$work/repo" "$base" -q || exit 2
 git -C "$work/repo" apply "$dir/patch.diff" || { echo "patch does not apply: $name"; exit 2; }
 rc=0
 for p in "$@"; do
